@@ -16,7 +16,7 @@ func init() {
 		LevelText:   "Structural clauses decided for all paths: ISR changes and leader reports reach Raft / the witness table only when the request's (leader, epoch) equals the partition's current pair; a failover fires only on witnesses > quorum with quorum = (ISR size - 1)/2; witnesses are validated against the member set before they are counted; the elected leader is an element of the ISR other than the current leader; leader and partition epochs are stored only under a not-smaller guard; ISR changes refuse non-replicas; failover state is reset on leadership loss and stream removal. Timing of the witness window and cluster-wide uniqueness of a leader per epoch are not decided.",
 		LevelNote:   "Trusted: go/ssa; Raft's ordering of proposals; timers fire as documented.",
 		DesignRef:   "DESIGN.md §4 C07",
-		Explanation: "Round 10: R07.10 also: the leader-change precondition looks the partition up when it runs. Round 9: R02.7 (shared) an ISR change carries the replicator's own generation. R07.11 (F104): report hands the reported leader epoch to the election, which proposes a change only while that epoch is still the current one. R07.3 also: the pruning test is made of the witness the loop looks at. R07.3 also: each witness's report is aged against Timeout() before the count (F84); R07.7 also: a failover status is moved to no other partition; reset / resetFailovers caller tables. R07.1 staleness fences (sibling agreement over ShrinkISR/ExpandISR/ReportLeader/ReportGroupCoordinator), R07.2 quorum rule and timer, R07.3 witness eligibility, R07.4 candidate provenance, R07.5 epochs only grow, R07.6 ISR ⊆ replicas, R07.7 failover hygiene (reset forgets every entry; a triggered failover consumes its witnesses), R07.8 lock pairing, R07.9 persisted ISR rebuilt after the in-memory change. NOT decided: timing, one leader per epoch cluster-wide, leader ∈ ISR after arbitrary shrink requests.",
+		Explanation: "Round 13: R07.2 also: the report just received is vetted by the pruning walk before the quorum is counted (ReportLeader validates outside the status lock). Round 10: R07.10 also: the leader-change precondition looks the partition up when it runs. Round 9: R02.7 (shared) an ISR change carries the replicator's own generation. R07.11 (F104): report hands the reported leader epoch to the election, which proposes a change only while that epoch is still the current one. R07.3 also: the pruning test is made of the witness the loop looks at. R07.3 also: each witness's report is aged against Timeout() before the count (F84); R07.7 also: a failover status is moved to no other partition; reset / resetFailovers caller tables. R07.1 staleness fences (sibling agreement over ShrinkISR/ExpandISR/ReportLeader/ReportGroupCoordinator), R07.2 quorum rule and timer, R07.3 witness eligibility, R07.4 candidate provenance, R07.5 epochs only grow, R07.6 ISR ⊆ replicas, R07.7 failover hygiene (reset forgets every entry; a triggered failover consumes its witnesses), R07.8 lock pairing, R07.9 persisted ISR rebuilt after the in-memory change. NOT decided: timing, one leader per epoch cluster-wide, leader ∈ ISR after arbitrary shrink requests.",
 	})
 }
 
